@@ -68,3 +68,20 @@ Definition extract (tp_raw ts_raw : bytes) : option span_ctx :=
        | Some (t, s, f) => Some (mk_ctx t s f true (from_header ts_raw))
        | None => None
        end.
+
+(* HttpTraceContext::Extract(carrier, context): the extracted span context is installed into the
+   caller's context only when it is valid; otherwise the caller's context is returned as it is.
+   [Ctx] is the caller's context type, [set_span] is trace::SetSpan. *)
+Definition extract_into {Ctx : Type} (set_span : Ctx -> span_ctx -> Ctx) (caller : Ctx) (tp_raw ts_raw : bytes) : Ctx :=
+  match extract tp_raw ts_raw with
+  | Some c => set_span caller c
+  | None => caller
+  end.
+
+(* HttpTraceContext::Inject(carrier, context) on a carrier given as an association list *)
+Definition inject_into (carrier : list (bytes * bytes)) (c : span_ctx) : list (bytes * bytes) :=
+  match inject c with
+  | None => carrier
+  | Some (tp, ts) =>
+      carrier ++ [(bs "traceparent", tp)] ++ match ts with Some h => [(bs "tracestate", h)] | None => [] end
+  end.
